@@ -106,7 +106,9 @@ func (Engine) Generate(r *core.Rng, property, tier string) *core.Plan {
 		return out
 	}
 	for i := 0; i < n; i++ {
-		switch r.Pick(40, 6, 14, 10, 6, 3, 3) {
+		switch r.Pick(40, 6, 14, 10, 6, 3, 3, 4) {
+		case 7:
+			p.Add(Step{Op: "edgeseek", D: r.Intn(2)})
 		case 0:
 			s := Step{Op: "commit", Chg: chgs(0, 3)}
 			if r.Bool(0.5) {
@@ -677,6 +679,37 @@ func (r *run) step(s *Step) {
 		}
 		r.seek = target
 		c.Logf("%s %d (d=%d)", r.opctx, target, d)
+		r.check()
+	case "edgeseek":
+		// the deepest seek History itself accepts: every retained height (D=0)
+		// or all but the oldest (D=1) undone. Base profile, contiguous heights.
+		if r.prof != pBase || r.top == 0 || len(r.temp) > 0 || r.afterRollback {
+			return
+		}
+		depth := r.ret - s.D%2
+		if depth <= 0 || depth > len(r.hs) || uint32(depth) > r.top {
+			return
+		}
+		if !r.seekToTip("edgeseek") {
+			return
+		}
+		target := r.top - uint32(depth)
+		if depth < len(r.hs) && r.hs[len(r.hs)-1-depth] != target {
+			return // heights not contiguous here
+		}
+		r.opctx = "seek-backward-to-the-capacity-edge"
+		err := r.h.SeekTo(target)
+		c.Check()
+		if err != nil {
+			// History refuses it: then it is outside what it calls its capacity
+			c.Logf("edgeseek %d refused", target)
+			c.Probe("edge-seek-refused")
+			return
+		}
+		c.Fault("seek-backward")
+		c.Probe("seek-to-the-capacity-edge")
+		r.seek = target
+		c.Logf("%s %d (depth=%d)", r.opctx, target, depth)
 		r.check()
 	case "deepseek":
 		if r.prof == pGaps || r.top == 0 || len(r.temp) > 0 {
